@@ -54,6 +54,13 @@
 // returns false.  Top level "template":true gives the router a RealmTemplate
 // (anonymous auth), "local_auth":true sets RequireLocalAuth on every realm.
 //
+// "yield_resume":{"q":1,"kind":"final","resume_after_us":3000} (C07, shape
+// yield-to-stalled-caller-then-resume; sessions and ops are empty): the
+// scripted scenario of yieldresume_test.go -- a caller with queue size q stops
+// reading, its queue is filled, the callee YIELDs (kind final |
+// progressive-final | stalled-progressive-final), the caller resumes
+// resume_after_us microseconds of virtual time after that YIELD was taken.
+//
 // close (C06 only): perform Close / RemoveRealm(realm) before ops[pos]
 // (pos==len(ops): at the end).  in_burst: release it together with ops[pos]
 // (all its ops if that is a burst).  After Router.Close the remaining ops are
@@ -76,6 +83,7 @@ type SessionSpec struct {
 	Q     int    `json:"q"`
 	Wrap  bool   `json:"wrap"`
 	Raw   bool   `json:"raw,omitempty"`
+	Feat  bool   `json:"feat,omitempty"` // announces progressive_call_results and call_canceling (caller and callee)
 }
 
 // Op is one step of a history.
@@ -119,6 +127,8 @@ type History struct {
 	Ops             []Op          `json:"ops"`
 	Close           *CloseSpec    `json:"close,omitempty"`
 	AfterCloseHours int           `json:"after_close_hours,omitempty"`
+	// YieldResume: the scripted scenario of yieldresume_test.go instead of ops.
+	YieldResume *YieldResumeSpec `json:"yield_resume,omitempty"`
 }
 
 // usesSession tells whether the op kind addresses session S.
